@@ -2,6 +2,7 @@ package main
 
 import (
 	"bytes"
+	"runtime"
 	"context"
 	"fmt"
 	"os"
@@ -398,6 +399,22 @@ func (o *Obligation) smtMode(w *World, extraAsserts []*Term, getValues []*Term, 
 	if ufmul {
 		b.WriteString("(declare-fun umul_real (Real Real) Real)\n(declare-fun umul_int (Int Int) Int)\n")
 	}
+	// boxing a value struct into an interface: injective, non-nil, with the value's dynamic type
+	for _, k := range sortedKeys(sb.unint) {
+		if strings.HasPrefix(k, "box_") {
+			sn := strings.TrimPrefix(k, "box_")
+			if tag, ok := w.boxTags[sn]; ok {
+				if _, hasUnbox := sb.unint["unbox_"+sn]; !hasUnbox {
+					fmt.Fprintf(&b, "(declare-fun unbox_%s (Int) %s)\n", sn, sn)
+				}
+				if _, hasDyn := sb.unint["dyntype"]; !hasDyn {
+					b.WriteString("(declare-fun dyntype (Int) Int)\n")
+					sb.unint["dyntype"] = "declared"
+				}
+				fmt.Fprintf(&b, "(assert (forall ((v$ %s)) (! (and (= (unbox_%s (box_%s v$)) v$) (= (dyntype (box_%s v$)) %s) (not (= (box_%s v$) 0))) :pattern ((box_%s v$)))))\n", sn, sn, sn, sn, tag, sn, sn)
+			}
+		}
+	}
 	// spec functions: declare all first (recursive: declare-fun), then define non-rec in dependency order
 	// simple approach: recursive ones declared up front; non-rec emitted in reverse discovery order (deps discovered later)
 	for _, name := range sb.specOrder {
@@ -522,7 +539,20 @@ var solvers = []solverSpec{
 	{"cvc5", func(f string, t int) []string { return []string{"cvc5", fmt.Sprintf("--tlimit=%d", t), "--produce-models", f} }},
 }
 
+// procSem bounds the number of solver processes running at once (the timeout clock of a
+// query starts only when it actually gets a CPU slot)
+var procSem = make(chan struct{}, runtime.NumCPU())
+
 func runSolver(ctx context.Context, sp solverSpec, file string, timeoutMs int) SolveResult {
+	select {
+	case procSem <- struct{}{}:
+	case <-ctx.Done():
+		return SolveResult{Solver: sp.name, Status: "timeout", File: file}
+	}
+	defer func() { <-procSem }()
+	if ctx.Err() != nil {
+		return SolveResult{Solver: sp.name, Status: "timeout", File: file}
+	}
 	t0 := time.Now()
 	args := sp.args(file, timeoutMs)
 	cctx, cancel := context.WithTimeout(ctx, time.Duration(timeoutMs+2000)*time.Millisecond)
